@@ -75,14 +75,15 @@ def uncompressedNameT (tbl : List (Name × Name)) (fmt : Format) (custom : Optio
     | some c => if testSuffix c name ≠ 0 then some (name.take (testSuffix c name)) else none
     | none => none
 
-/-- `compressed_name()` over an explicit per-format list (`customMatches` is defined just above). `none` = "File already has '…' suffix, skipping" (warning),
-    or — for a format without default suffix and no custom suffix — the state args.c:862 makes unreachable
-    (`--format=raw` without `--suffix` is a fatal usage error unless writing to stdout). -/
+/-- `custom_suffix != NULL && test_suffix(custom_suffix, …) != 0` -/
 def customMatches (custom : Option Name) (name : Name) : Bool :=
   match custom with
   | some c => testSuffix c name != 0
   | none => false
 
+/-- `compressed_name()` over an explicit per-format list. `none` = "File already has '…' suffix, skipping" (warning),
+    or — for a format without default suffix and no custom suffix — the state args.c:862 makes unreachable
+    (`--format=raw` without `--suffix` is a fatal usage error unless writing to stdout). -/
 def compressedNameT (sufs : List Name) (custom : Option Name) (name : Name) : Option Name :=
   if sufs.any (fun s => testSuffix s name != 0) then none
   else if customMatches custom name then none
